@@ -106,11 +106,6 @@ Theorem qm_is_equal_orig_refuted :
   exists a b, is_equal_with catches_orig a (OModel b) = Raise ValErr.
 Proof. exists qm1, qm2. vm_compute. reflexivity. Qed.
 
-(* ConstrainedQuadraticModel.is_equal is NOT total: anything that is not a CQM raises *)
-Theorem cqm_is_equal_total_refuted :
-  exists c o, cqm_is_equal_code c o = Raise AttrErr.
-Proof. exists (mkCqm qm1 [] []), (OModel qm1). reflexivity. Qed.
-
 Lemma mem_in l ls : mem l ls = true <-> In l ls.
 Proof.
   unfold mem. rewrite existsb_exists. split.
@@ -144,6 +139,16 @@ Proof.
   specialize (K Hl). pose proof (assoc_in (q_cons d) l K) as A.
   destruct (assoc (q_cons d) l) as [c1|]; [apply constraint_eq_total|contradiction].
 Qed.
+
+(* ConstrainedQuadraticModel.is_equal is total over everything it may be handed *)
+Theorem cqm_is_equal_total c o : exists b, cqm_is_equal_code c o = Val b.
+Proof.
+  destruct o as [q|m|d|]; try (exists false; reflexivity). apply cqm_is_equal_total_on_cqm.
+Qed.
+
+(* ... and False against anything that is not a CQM *)
+Theorem cqm_is_equal_non_cqm c o : (forall d, o <> OCqm d) -> cqm_is_equal_code c o = Val false.
+Proof. intros H. destruct o as [q|m|d|]; try reflexivity. exfalso. apply (H d). reflexivity. Qed.
 
 (* ---------- is_equal = true  <->  same_model ---------- *)
 Lemma Qc_eqb_true_iff x y : Qc_eqb x y = true <-> x = y.
